@@ -2,7 +2,14 @@
 EXTENDS CStr, Json, IOUtils, SequencesExt
 CONSTANTS MaxLen
 MCInputs == SeqsUpTo({0, 97, 255, 195, 177}, MaxLen)
+\* from_utf8 / to_str with the complete error (valid_up_to, error_len): byte strings over lead bytes of every width,
+\* the restricted second bytes and a nul
+Utf8Bytes  == {0, 97, 128, 159, 160, 191, 195, 224, 226, 237, 240, 244, 245}
+Utf8Inputs == SeqsUpTo(Utf8Bytes, 3) \cup {<<a, b, c, d>> : a \in {240, 244, 226}, b \in {128, 143, 144, 191}, c \in {128, 97, 0}, d \in {191, 0}}
+ASSUME \A s \in Utf8Inputs : Utf8Check(s).ok <=> ValidUtf8(s)
 Emit == LET ks == SetToSeq(MCInputs) IN
         TLCGet("stats").generated >= 0 /\ ndJsonSerialize(IOEnv.OUT, [q \in 1..Len(ks) |->
             [m |-> "CStr", b |-> ks[q], until |-> RefUntil(ks[q]), with |-> RefWith(ks[q])]])
+        /\ LET us == SetToSeq(Utf8Inputs) IN
+           ndJsonSerialize(IOEnv.OUT \o ".utf8", [q \in 1..Len(us) |-> [m |-> "Utf8Check", b |-> us[q], exp |-> Utf8Check(us[q])]])
 =============================================================================
